@@ -963,6 +963,185 @@ example : lookupNSAddr [] (glueCached (checkGlue [] false 2 "x.sub.evil.test.".t
     [⟨"NS.sub.evil.test.".toList, 1, [198, 51, 100, 5]⟩]).v4 "ns.sub.evil.test.".toList) none
     = some [[198, 51, 100, 5]] := by decide
 
+/-! ## `processDelegation` over every referral history -/
+
+/-- An address the resolver may talk to: not loopback, not one of its own. -/
+def GoodAddr (locals : List IP) (a : IP) : Prop := isLoopback a = false ∧ a ∉ locals
+
+/-- Everything stored — delegation server lists and the name-server address cache — holds usable addresses only. -/
+def StoreInv (locals : List IP) (st : DelegState) : Prop :=
+  (∀ p ∈ st.glue4, ∀ a ∈ p.2, GoodAddr locals a) ∧ (∀ p ∈ st.delegs, ∀ a ∈ p.2, GoodAddr locals a)
+
+theorem lookupHost_good (locals : List IP) (subs : List (Str × Option (List AddrRR)))
+    (acc : List (Str × List IP) × List IP) (h : Str)
+    (h1 : ∀ p ∈ acc.1, ∀ a ∈ p.2, GoodAddr locals a) (h2 : ∀ a ∈ acc.2, GoodAddr locals a) :
+    (∀ p ∈ (lookupHost locals subs acc h).1, ∀ a ∈ p.2, GoodAddr locals a) ∧
+    (∀ a ∈ (lookupHost locals subs acc h).2, GoodAddr locals a) := by
+  unfold lookupHost
+  cases hl : lookupNSAddr locals (getKey acc.1 h) ((getKey subs h).getD none) with
+  | none => exact ⟨h1, h2⟩
+  | some l =>
+    have hgood : ∀ a ∈ l, GoodAddr locals a := by
+      intro a ha
+      unfold lookupNSAddr at hl
+      cases hc : getKey acc.1 h with
+      | some c =>
+        rw [hc] at hl
+        simp only [Option.some.injEq] at hl
+        subst hl
+        obtain ⟨p, hp, rfl⟩ := getKey_mem acc.1 h c hc
+        exact h1 p hp a ha
+      | none =>
+        rw [hc] at hl
+        cases hs : (getKey subs h).getD none with
+        | none => rw [hs] at hl; simp at hl
+        | some ans =>
+          rw [hs] at hl
+          simp only at hl
+          split at hl
+          · cases hl
+          · simp only [Option.some.injEq] at hl
+            subst hl
+            obtain ⟨_, _, _, _, g1, g2, _⟩ := searchAddrs_sound locals ans a ha
+            exact ⟨g1, g2⟩
+    simp only
+    constructor
+    · intro p hp a ha
+      rcases mem_setKey _ _ _ _ hp with hp | rfl
+      · exact h1 p hp a ha
+      · exact hgood a ha
+    · intro a ha
+      rcases mem_appendUniqueAll l acc.2 a ha with ha | ha
+      · exact h2 a ha
+      · exact hgood a ha
+
+/-- **No referral, in any state, makes the resolver store a loopback or local
+address**: `processDelegation` preserves `StoreInv` — whatever the referral
+carries as glue, whatever the name servers' own lookups answer, and whatever
+earlier referrals left in the address cache. -/
+theorem delegStep_preserves (locals : List IP) (st : DelegState) (rf : Referral)
+    (inv : StoreInv locals st) : StoreInv locals (delegStep locals st rf).1 := by
+  unfold delegStep
+  simp only
+  cases hns : (extractDelegationInfo rf.ns).ns with
+  | none => exact inv
+  | some p =>
+    obtain ⟨owner, cls⟩ := p
+    simp only
+    split
+    · exact inv
+    · split
+      · exact inv
+      · split
+        · exact inv
+        · -- glue accepted by checkGlue is good
+          have hglue : ∀ h a, (h, a) ∈ (checkGlue locals false rf.level rf.qname
+              (extractDelegationInfo rf.ns).hosts rf.extras).v4 → GoodAddr locals a := by
+            intro h a hm
+            obtain ⟨_, _, _, g1, g2, _⟩ := glue_in_bailiwick locals false rf.level rf.qname _ rf.extras h a (Or.inl hm)
+            exact ⟨g1, g2⟩
+          have hsrv : ∀ a ∈ (checkGlue locals false rf.level rf.qname
+              (extractDelegationInfo rf.ns).hosts rf.extras).servers, GoodAddr locals a := by
+            intro a ha
+            obtain ⟨h, hm⟩ := glue_servers_are_accepted locals false rf.level rf.qname _ rf.extras a ha
+            rcases hm with hm | hm
+            · exact hglue h a hm
+            · simp [checkGlue] at hm
+          -- the cache after the glue writes
+          have hglue1 : ∀ (found : List Str) (gl : List (Str × List IP)),
+              (∀ p ∈ gl, ∀ a ∈ p.2, GoodAddr locals a) →
+              ∀ p ∈ found.foldl (fun gl h => setKey gl h ((glueCached (checkGlue locals false rf.level rf.qname
+                (extractDelegationInfo rf.ns).hosts rf.extras).v4 h).getD [])) gl, ∀ a ∈ p.2, GoodAddr locals a := by
+            intro found
+            induction found with
+            | nil => intro gl hg; simpa using hg
+            | cons h t ih =>
+              intro gl hg
+              simp only [List.foldl_cons]
+              apply ih
+              intro p hp a ha
+              rcases mem_setKey _ _ _ _ hp with hp | rfl
+              · exact hg p hp a ha
+              · exact hglue h a (mem_glueCached _ h a ha)
+          -- the lookups
+          have hfold : ∀ (hs : List Str) (acc : List (Str × List IP) × List IP),
+              (∀ p ∈ acc.1, ∀ a ∈ p.2, GoodAddr locals a) → (∀ a ∈ acc.2, GoodAddr locals a) →
+              (∀ p ∈ (hs.foldl (lookupHost locals rf.subs) acc).1, ∀ a ∈ p.2, GoodAddr locals a) ∧
+              (∀ a ∈ (hs.foldl (lookupHost locals rf.subs) acc).2, GoodAddr locals a) := by
+            intro hs
+            induction hs with
+            | nil => intro acc a1 a2; exact ⟨a1, a2⟩
+            | cons h t ih =>
+              intro acc a1 a2
+              simp only [List.foldl_cons]
+              obtain ⟨b1, b2⟩ := lookupHost_good locals rf.subs acc h a1 a2
+              exact ih _ b1 b2
+          obtain ⟨r1, r2⟩ := hfold _ (_, _) (hglue1 _ st.glue4 inv.1) hsrv
+          split
+          · exact ⟨r1, inv.2⟩
+          · refine ⟨r1, ?_⟩
+            intro p hp a ha
+            rcases mem_setKey _ _ _ _ hp with hp | rfl
+            · exact inv.2 p hp a ha
+            · exact r2 a ha
+
+/-- … and therefore after EVERY history of referrals, from the empty store. -/
+theorem delegation_store_never_holds_loopback_or_local (locals : List IP) (history : List Referral) :
+    StoreInv locals (history.foldl (fun st rf => (delegStep locals st rf).1) {}) := by
+  have : ∀ (h : List Referral) (st : DelegState), StoreInv locals st →
+      StoreInv locals (h.foldl (fun st rf => (delegStep locals st rf).1) st) := by
+    intro h
+    induction h with
+    | nil => intro st inv; exact inv
+    | cons rf t ih => intro st inv; exact ih _ (delegStep_preserves locals st rf inv)
+  exact this history {} ⟨by simp, by simp⟩
+
+/-- **A delegation enters the store only through an accepted referral**: a zone
+present after the step and absent before it is the (lower-cased) owner of the
+referral's NS set, and `validReferral` accepted that referral for the zone that
+was asked — so `referral_progress` applies to it. -/
+theorem delegation_stored_only_if_valid (locals : List IP) (st : DelegState) (rf : Referral)
+    (p : Str × List IP) (hp : p ∈ (delegStep locals st rf).1.delegs) :
+    p ∈ st.delegs ∨ ∃ owner cls, (extractDelegationInfo rf.ns).ns = some (owner, cls) ∧ p.1 = lower owner ∧
+      validReferral (extractDelegationInfo rf.ns) rf.authZone rf.qname rf.qclass = true := by
+  unfold delegStep at hp
+  simp only at hp
+  cases hns : (extractDelegationInfo rf.ns).ns with
+  | none => rw [hns] at hp; exact Or.inl hp
+  | some q =>
+    obtain ⟨owner, cls⟩ := q
+    rw [hns] at hp
+    simp only at hp
+    split at hp
+    · exact Or.inl hp
+    · rename_i hv
+      split at hp
+      · exact Or.inl hp
+      · split at hp
+        · exact Or.inl hp
+        · split at hp
+          · exact Or.inl hp
+          · rcases mem_setKey _ _ _ _ hp with hp | rfl
+            · exact Or.inl hp
+            · exact Or.inr ⟨owner, cls, rfl, rfl, by simpa using hv⟩
+
+-- non-vacuity: two referrals; the second re-uses a host whose address the first one learned by lookup,
+-- the loopback glue and the loopback lookup answer never reach the store
+example : ([
+    { authZone := "evil.test.".toList, level := 2, qname := "x.sub.evil.test.".toList, qclass := 1,
+      ns := [AuthRR.ns "sub.evil.test.".toList 1 300 "ns1.sub.evil.test.".toList,
+             AuthRR.ns "sub.evil.test.".toList 1 300 "ns2.sub.evil.test.".toList],
+      extras := [⟨"ns1.sub.evil.test.".toList, 1, [198, 51, 100, 5]⟩, ⟨"ns2.sub.evil.test.".toList, 1, [127, 0, 0, 1]⟩],
+      subs := [("ns2.sub.evil.test.".toList, some [⟨"ns2.sub.evil.test.".toList, 1, [198, 51, 100, 6]⟩,
+                                                    ⟨"ns2.sub.evil.test.".toList, 1, [127, 0, 0, 53]⟩])] },
+    { authZone := "evil.test.".toList, level := 2, qname := "x.c.evil.test.".toList, qclass := 1,
+      ns := [AuthRR.ns "c.evil.test.".toList 1 300 "ns2.sub.evil.test.".toList],
+      extras := [], subs := [] } ] : List Referral).foldl (fun st rf => (delegStep [] st rf).1) {}
+    = { delegs := [("sub.evil.test.".toList, [[198, 51, 100, 5], [198, 51, 100, 6]]),
+                   ("c.evil.test.".toList, [[198, 51, 100, 6]])],
+        glue4 := [("ns1.sub.evil.test.".toList, [[198, 51, 100, 5]]), ("ns2.sub.evil.test.".toList, [[198, 51, 100, 6]])] } := by
+  decide
+
 /-! ## the alias chase (`Cache.additionalAnswer`) -/
 
 /-- **Every record of the composed answer has a known provenance.** After the
